@@ -92,6 +92,12 @@ CHECKS = {
 "C18": ("fault_enumeration", "deterministic simulation with a disk node: the enumerated decision table (3456 configurations) plus seeded histories of validations interleaved with administrator moves, disk faults on stored copies / store directories and simulated clock jumps, against the real CertificateStore on a scratch PKI directory; decision-table reference model",
         "Oracle: Good => not in rejected/, byte-identical trusted copy (or trust-unknown and no copy), key length valid for the policy, and unless skip-verify: inside validity at the simulated time (when check-time), host and URI match; unknown and untrusted => in rejected/ afterwards; accepted => not in rejected/ afterwards.",
         "Runs as root: permission faults not injectable. Wall clock through the verif clock seam (fixed mode).", "7/C18"),
+"C35": ("exploration", "deterministic simulation, client side: the real AsyncSecureChannel + client TcpTransport event loop on a paused seeded tokio runtime against a scripted raw server (verif::net connector seam); seeded schedules of request submissions with individual deadlines and per-request server behaviour (prompt / slow multi-chunk / late / silent / duplicate / unknown id / abort / undecodable) plus server- or client-side close; history oracle over completion times and statuses",
+        "Oracle: every request completes by the end of the run; Ok carries the response built for that request; BadTimeout never before the deadline nor when a complete response was delivered >1 ms before it; abort => BadCommunicationError; closed-class statuses only after a scripted close cause; the transport never closes without a scripted cause (unknown / expired / duplicate responses are ignored).",
+        "Policy None. The scripted server sends the chunks of one message contiguously. Observation outside the property: TransportState::close can wait forever (see DESIGN.md).", "7/C35"),
+"C36": ("exploration", "deterministic simulation, client side: the real client Session with its session and subscription event loops against a scripted raw server that decides per arriving PublishRequest (notification / keep-alive / service fault / silence / late / held); the server-side history of acknowledgements is checked after a fault-free quiescence phase",
+        "Oracle: every data notification delivered in time is acknowledged by a later publish request; an acknowledgement carried by a successfully answered request is never carried again (nor twice in one request); acknowledgements carried by a failed request are carried again later.",
+        "Policy None, anonymous. Connection loss is outside the property's quantifier and not injected. Success/failure of a request is decided with a 3 ms margin around the client's deadline; in between either is accepted.", "7/C36"),
 "C14": ("exploration", "deterministic simulation: seeded interleavings of requests, renew-begin / renew-end and forged-token requests from a raw client on secured channels against the real server tasks; token-epoch reference model, acceptance observed through the request's effect",
         "Oracle: a request secured under the server's current token, or the previous one while nothing newer has been received, takes effect; a request under a never-issued token (foreign keys or unknown token id) never does.",
         "Server side only (all policies x Sign/SignAndEncrypt, RSA 2048); the real client's handling of new-token responses is not covered.", "7/C14"),
